@@ -204,6 +204,12 @@ func (e *vfc29Env) final(ctx context.Context, core *vfcfbCore, st *vfc29RunState
 // runToQuiescence runs compaction cycles with a fresh compactor until a cycle performs no mutation (or the bucket fail-stops).
 // It returns the number of mutating operations performed, whether it crashed, and an error for a cycle that failed without a crash.
 func (e *vfc29Env) runToQuiescence(ctx context.Context, core *vfcfbCore, dir string) (crashed bool, quiescent bool, err error) {
+	return e.runToQuiescenceWith(ctx, core, dir, nil, nil)
+}
+
+// runToQuiescenceWith: onComp sees the compactor before its first cycle (to install a background activity); afterQuiescence, if set, is
+// called once when the compactor has become quiescent (e.g. to let time pass) and the SAME compactor then runs to quiescence again.
+func (e *vfc29Env) runToQuiescenceWith(ctx context.Context, core *vfcfbCore, dir string, onComp func(*vfcrigCompactor, context.Context), afterQuiescence func()) (crashed bool, quiescent bool, err error) {
 	cctx, cancel := context.WithTimeout(ctx, 10*time.Minute)
 	defer cancel()
 	core.mu.Lock()
@@ -212,6 +218,9 @@ func (e *vfc29Env) runToQuiescence(ctx context.Context, core *vfcfbCore, dir str
 	comp, err := vfcrigNewCompactor(cctx, e.set, e.opts, core.view("sync", true), core.view("compactor", false), dir)
 	if err != nil {
 		return false, false, fmt.Errorf("rig: %w", err)
+	}
+	if onComp != nil {
+		onComp(comp, cctx)
 	}
 	maxCycles := len(e.set.Specs) + 3
 	for i := 0; i < maxCycles; i++ {
@@ -225,7 +234,12 @@ func (e *vfc29Env) runToQuiescence(ctx context.Context, core *vfcfbCore, dir str
 		}
 		_, after, _ := core.counts()
 		if after == before {
-			return false, true, nil
+			if afterQuiescence == nil {
+				return false, true, nil
+			}
+			afterQuiescence()
+			afterQuiescence = nil
+			i = -1
 		}
 	}
 	return false, false, nil
@@ -328,6 +342,7 @@ func TestVF_C29(t *testing.T) {
 		}
 		env.final(ctx, core, st)
 		_, M, _ := core.counts()
+		cfOps := core.ops()
 		RC := core.otherReads() // reads issued by the compactor proper (downloads, exists checks, listings of block.Delete) in the crash-free run
 		t.Logf("set %d (%s): build %v, crash-free run %v, M=%d mutations (%d applied), %d samples", c, set.Name, tBuild, time.Since(tSet), M, len(states)-1, len(env.orig))
 		// M counts attempted mutating operations; some (deleting a directory marker object that does not exist) change nothing.
@@ -381,7 +396,9 @@ func TestVF_C29(t *testing.T) {
 		type job struct {
 			k    int
 			live bool   // true: the crash is produced by a real fail-stop run and the half-written working directory is kept for the restart
-			kind string // "": crash; otherwise a transient fault: "mutation-lost", "mutation-applied" (applied but reported as failed), "read" (k-th non-sync read)
+			act  string // kind "background": the activity run inside bucket operation k
+			flt  string // kind "background": "", "attr-listing" or "sync-read" - one transient fault inside the activity
+			kind string // "": crash; "background": see act; otherwise a transient fault: "mutation-lost", "mutation-applied" (applied but reported as failed), "read" (k-th non-sync read)
 		}
 		jobs := make(chan job)
 		var wg sync.WaitGroup
@@ -392,6 +409,50 @@ func TestVF_C29(t *testing.T) {
 				for j := range jobs {
 					k := j.k
 					dir, _ := os.MkdirTemp(scratch, "crash")
+					if j.kind == "background" {
+						// inside bucket operation k of the cycle another user of the same Syncer/filters/cleaner runs to completion; the cycle goes on;
+						// after quiescence all objects are served as older than the partial-upload threshold and the same compactor runs on
+						phase := "background-" + j.act
+						if j.flt != "" {
+							phase += "-with-" + j.flt + "-fault"
+						}
+						core, st := newRun(snap, phase, k)
+						ran := false
+						_, quiescent, err := env.runToQuiescenceWith(ctx, core, dir, func(comp *vfcrigCompactor, cctx context.Context) {
+							core.setBeforeOp(k, func(vfcfbOp) {
+								switch j.flt {
+								case "attr-listing":
+									core.setAttrIterAll(1 + k%3)
+								case "sync-read":
+									core.armReadFaultRelative(2+k%5, vfcfbErrTransient, 0)
+								}
+								_ = comp.background(cctx, j.act)
+								core.setAttrIterAll(0)
+								core.armReadFault(0, nil)
+								ran = true
+							})
+						}, func() {
+							core.setLastModAll(time.Now().Add(-PartialUploadThresholdAge - 24*time.Hour))
+							st.mu.Lock()
+							st.phase = phase + ":aged"
+							st.mu.Unlock()
+						})
+						switch {
+						case st.isViolated():
+						case !ran:
+							r.Count("background_hook_not_reached", 1)
+						case err != nil:
+							r.Inconclusive(fmt.Sprintf("run with background %s at operation %d failed on set %s: %v", phase, k, set.Name, err))
+						case !quiescent:
+							r.Inconclusive(fmt.Sprintf("run with background %s at operation %d not quiescent on set %s", phase, k, set.Name))
+						default:
+							r.Distinct(fmt.Sprintf("%d|%s|%d|%s", c, set.Name, k, phase))
+							r.Count("background_"+j.act, 1)
+							env.final(ctx, core, st)
+						}
+						_ = os.RemoveAll(dir)
+						continue
+					}
 					if j.kind != "" {
 						// one operation fails once, everything later works; the cycle finishes or returns its error; then a fresh compactor runs to quiescence
 						phase := "transient-" + j.kind
@@ -479,6 +540,43 @@ func TestVF_C29(t *testing.T) {
 			}
 			if r.Thorough() || (i+c)%2 == 1 {
 				jobs <- job{k: k, kind: "mutation-applied"}
+			}
+		}
+		// background activities: inside every operation of a result upload after its first one (and inside the operation that follows the
+		// upload), and inside every 10th other operation of the compactor proper
+		type combo struct{ act, flt string }
+		combos := []combo{{"sync", ""}, {"sync+partial-cleanup", "attr-listing"}, {"sync+partial-cleanup", ""}, {"sync", "sync-read"}, {"clean-marked", ""}, {"sync+gc", ""}, {"partial-cleanup", "attr-listing"}, {"gc", ""}}
+		inUpload := map[string]bool{}
+		pi := 0
+		for i, o := range cfOps {
+			if o.View != "compactor" {
+				continue
+			}
+			dirName := o.Name
+			if x := strings.IndexByte(dirName, '/'); x > 0 {
+				dirName = dirName[:x]
+			}
+			point := false
+			switch {
+			case o.Kind == "upload" && !env.origIDs[dirName] && (o.Class == "chunks" || o.Class == "index" || o.Class == "meta"):
+				point = inUpload[dirName] // not inside the very first operation of the upload: nothing of the block exists yet
+				inUpload[dirName] = true
+				if o.Class == "meta" {
+					inUpload["after:"+dirName] = true
+				}
+			case i > 0 && cfOps[i-1].Kind == "upload" && cfOps[i-1].Class == "meta" && cfOps[i-1].View == "compactor":
+				point = true // right after the result became visible
+			}
+			if point {
+				for ci, cb := range combos {
+					if r.Thorough() || (ci+pi)%2 == 0 {
+						jobs <- job{k: o.Seq, kind: "background", act: cb.act, flt: cb.flt}
+					}
+				}
+				pi++
+			} else if i%10 == c%10 {
+				cb := combos[(i/10)%len(combos)]
+				jobs <- job{k: o.Seq, kind: "background", act: cb.act, flt: cb.flt}
 			}
 		}
 		// transient faults of the compactor's own reads (the sync reads are C33's): quick every 4th, thorough all
